@@ -11,6 +11,7 @@ import N2V.Lemmas.LoadSched
 import N2V.Lemmas.WorldSettled
 import N2V.Lemmas.WorkSkip
 import N2V.Lemmas.WorldSettledD
+import N2V.Lemmas.SchedDone2
 namespace N2V.C02
 open N2V N2V.Work N2V.Load
 
@@ -170,6 +171,25 @@ theorem done_steps_are_settled_with_depfiles (w : World) (m : Bytes) (l : Loader
   obtain ⟨_, l0⟩ := loadEnv_loaded0 w m l e0 hl
   exact Run.build_done gok a _ (JG e0) (jd_spec e0 inv0 l0 plain adopt perms fin) e0
     (jg_initial e0 a inv0 l0 hc0) n h hsrc
+
+/-- **…also after a FAILED build** (C02's histories include failed builds): the same invariant holds
+    at the end of an invocation that stops because a command failed, the `-k` budget ran out or a
+    command was interrupted - every step that did complete is settled exactly as after a
+    successful build, so the next invocation has only the rest to do. -/
+theorem done_steps_are_settled_also_after_a_failed_build (w : World) (m : Bytes) (l : Loader) (e0 : Env)
+    (hl : loadEnv w m = .ok (l, e0)) (plain : PlainD e0.g)
+    (a : Run.Args) (adopt : Bool) (perms : List (List Nat)) (fin : List (Nat × Sched.Term))
+    (h : (∃ n, (Run.build (schedGraph e0.g) a (choices adopt perms fin) e0).2.2 = .done n) ∨
+         (Run.build (schedGraph e0.g) a (choices adopt perms fin) e0).2.2 = .failed)
+    (hsrc : GoodD (Run.build (schedGraph e0.g) a (choices adopt perms fin) e0).1
+              (Run.build (schedGraph e0.g) a (choices adopt perms fin) e0).2.1) :
+    JD e0 (Run.build (schedGraph e0.g) a (choices adopt perms fin) e0).1
+      (Run.build (schedGraph e0.g) a (choices adopt perms fin) e0).2.1 := by
+  obtain ⟨inv0, gok, _⟩ := loadEnv_graph_ok w m l e0 hl
+  obtain ⟨hc0, _, _, _⟩ := loadEnv_frame w m l e0 hl
+  obtain ⟨_, l0⟩ := loadEnv_loaded0 w m l e0 hl
+  exact Run.build_done_or_failed gok a _ (JG e0) (jd_spec e0 inv0 l0 plain adopt perms fin) e0
+    (jg_initial e0 a inv0 l0 hc0) h hsrc
 
 /-! ### "Never skips a step that changed": what a clean answer guarantees -/
 
